@@ -73,6 +73,11 @@ CLAIMED = {
                      "2^8 / 2^16 / 2^32 blocks, 2^32 bytes and the real increment code crosses the boundary; 512 MiB (BLAKE, JH) and 4 GiB (Skein) messages are really streamed with a checkpoint. "
                      "TLC recomputes every digest from (chaining value, amount absorbed, remaining bytes) with Blake/JH/Groestl/Skein.tla.",
                 note="Trusted: TLC, the hash specifications, hook H2 accessors, soundness of fast-forward (compression conformance is per (h, m, t) triple)."),
+    "C03": dict(level="model_checking", design="5/C03", technique="TLC exhaustive check of the dispatch decision procedure + conformance of observed Machine selections + cross-configuration trace validation against configuration-free specifications",
+                text="Dispatch.tla states what each macro selects for every build mode and feature level (Total, Safe, Best checked exhaustively); the Machine actually selected in every build / under every forced level is "
+                     "observed and must equal it. All dispatching algorithms (ChaCha wide+narrow, guts, BLAKE x4, JH x4, every vector op) run on identical inputs under 11 (quick) / 16 (thorough) configurations and every distinct "
+                     "outcome is validated by TLC against specifications that have no configuration variable; panics and crashes are outcomes.",
+                note="Trusted: TLC, the function specifications (published vectors), dispatch override as stand-in for older CPUs, sampled inputs."),
 }
 
 PENDING = {  # properties whose checks are not built yet in this tree (kept current as checks land)
